@@ -1,6 +1,7 @@
 """textlib.py — text-level helpers shared by C04/C05/C07: hex encoding, canonical CST form,
 correspondence with canonicalisation, text generators (renderer with independent choices per
 token, malformed stream, grammar negatives, arbitrary Unicode)."""
+import os
 import re, random, itertools
 import vlib
 
@@ -38,6 +39,7 @@ def correspond(ctx, lines, scope, nontrivial=None, canon=None):
     ctx.evaluations += len(lines)
     sc = ctx.corr_scopes.setdefault(scope, {"cases": 0, "disagreements": 0})
     sc["cases"] += len(lines)
+    vlib.account(ctx.dist, scope, lines, mi)
     for l, a, b in zip(lines, mm, mi):
         if a != b:
             sc["disagreements"] += 1
@@ -233,12 +235,14 @@ def cst_subset(texts, limit=700, keep_long=12):
 # ------------------------------------------------------------------ guarded runs (hang guard)
 import subprocess, time as _time
 
-def run_guarded(exe, line, timeout):
-    """one case in its own process under a wall-clock hang guard -> (result line, seconds)"""
+def run_guarded(exe, line, timeout, stack_kb=None):
+    """one case in its own process under a wall-clock hang guard -> (result line, seconds);
+    stack_kb: run the library on a thread with that much stack (harness env VHARNESS_STACK_KB)"""
     t0 = _time.time()
+    env = dict(os.environ, VHARNESS_STACK_KB=str(stack_kb)) if stack_kb else None
     try:
         p = subprocess.run([exe], input=line + "\n", stdout=subprocess.PIPE, stderr=subprocess.PIPE,
-                           text=True, timeout=timeout)
+                           text=True, timeout=timeout, env=env)
     except subprocess.TimeoutExpired:
         return "HANG", _time.time() - t0
     o = p.stdout.strip("\n")
